@@ -181,6 +181,16 @@ func init() {
 			free = append(free, ck("bitcoin-script:0101"+up), ck("bitcoin-script:0A0A"+up), ck("bitcoin-script:0101"+up[:2]+strings.ToLower(up[2:])),
 				ck("first line\nbitcoin-script:0101"+up), ck("x\nbitcoin-script:0101"+strings.ToLower(up)), ck("bitcoin-script:0101"+strings.ToLower(up)+"\n"), ck(" bitcoin-script:0101"+strings.ToLower(up)))
 		}
+		// header fields that are not two hex digits (a sign, a blank, other digits) and the checksum
+		// digits occurring a second time in the text - all with the checksum of the text as written
+		for _, hdr := range []string{"+1+1", "-1-1", "+101", "01+1", " 101", "1 01", "0x01", "1e01", "\u0661\u0661", "0101"} {
+			free = append(free, ck("bitcoin-script:"+hdr+"51"), ck("bitcoin-script:"+hdr+"76a914"+strings.Repeat("ab", 20)+"88ac"))
+		}
+		for _, d := range [][]byte{{0x51}, bytes.Repeat([]byte{0x6a}, 9)} {
+			t := refaddr.EncodeBIP276(refaddr.BIP276{Prefix: "bitcoin-script", Version: 1, Network: 1, Data: d})
+			c8 := t[len(t)-8:]
+			free = append(free, t+c8, t+"00"+c8, t+"51"+c8, t[:len(t)-8]+c8+c8)
+		}
 		for i, t := range free {
 			if c.Case(uint64(i)) {
 				ct(c, &c17Text{Text: t, Class: "free"})
